@@ -89,7 +89,7 @@ def gen(rng, depth, allow_cmp=True):
     for k in rng.sample(["k", "w", "flag"], rng.choice([0, 0, 1, 2])):
         v = rng.random()
         if v < 0.3:
-            kws.append((k, ("str", rng.choice(["'u'", '"v w"', "'x:y'", '""', "'it s'"]))))
+            kws.append((k, ("str", rng.choice(["'u'", '"v w"', "'x:y'", '""', "'it s'", "'Z\u00fcrich'", '"\u00b5g \u212b"']))))
         elif v < 0.45:
             kws.append((k, ("py", rng.choice(["True", "False", "None"]))))
         else:
